@@ -37,6 +37,9 @@ fn dispatch(ctx: &Ctx) {
 fn main() {
     let args: Vec<String> = std::env::args().skip(1).collect();
     let ctx = Ctx::from_args(&args);
+    if ctx.param_u64("nojets", 0) == 1 {
+        vcore::gen::NO_JETS.store(true, std::sync::atomic::Ordering::Relaxed);
+    }
     install_panic_hook();
     // Pinned stack size: recursion findings are keyed on depth, not on `ulimit -s`.
     let handle = std::thread::Builder::new()
